@@ -112,6 +112,17 @@ def run(tier, seed, build=True):
                     oc = tr.get("outcome")
                     if oc != "completed":
                         return ({"symptom": oc, "sigint_delivered": "sigint" in tr.get("events", [])}, "scheduler outcome %s: %s" % (oc, tr.get("what", "")))
+                    ev = tr.get("events", [])
+                    if "sigint" in ev:
+                        # "an interrupt ends the run promptly": once the handler has finished, main must not wait for the
+                        # workers to work through their files (sends after h_end that precede main's join are such work)
+                        hend = [i for i, e in enumerate(ev) if e.endswith(":h_end")]
+                        jn = [i for i, e in enumerate(ev) if e == "l0:JOIN"]
+                        if hend and jn and jn[0] > hend[0]:
+                            work = [e for e in ev[hend[0]:jn[0]] if (e[0] in "se" and e[1:].isdigit())]
+                            if work:
+                                return ({"symptom": "interrupt-not-prompt", "sigint_delivered": True},
+                                        "after the SIGINT handler finished, main waited for the workers: %d worker sends happened before it could return (events: %s)" % (len(work), " ".join(ev[-16:])))
                     if x.tmp_left:
                         f = classify(x)
                         f["symptom"] = "tempfile-left"
